@@ -80,14 +80,8 @@ theorem hexital_purge_keeps_ohlcv (h h' : Hexital F) (name : Option String)
 /-- `Hexital.append(candles)` = the managers' appends, then a calculation that keeps every OHLCV -/
 theorem hexital_append_keeps_ohlcv (h h' : Hexital F) (new : List (Candle F))
     (hop : h.append new = .ok h') :
-    ∃ h1, ((h.managers.map (·.1)).drop 1 ++ (h.managers.map (·.1)).take 1).foldlM
-            (fun (h : Hexital F) (k : String) => do
-              let m ← h.manager k
-              let m' ← m.append new
-              return h.setManager k m') h = .ok h1 ∧
-          SameBase h1 h' := by
+    ∃ h1, h.feedManagers new = .ok h1 ∧ SameBase h1 h' := by
   unfold Hexital.append at hop
-  dsimp only at hop
   obtain ⟨h1, e1, e2⟩ := bind_ok hop
   exact ⟨h1, e1, hexital_calculate_keeps_ohlcv h1 h' none e2⟩
 
